@@ -48,10 +48,67 @@ def in_cell(r, n):
     return AND(r >= -n / 2, r < n / 2)
 
 
+def _subterms(t, pred):
+    out, seen, stack = [], set(), [t]
+    while stack:
+        e = stack.pop()
+        if e.get_id() in seen:
+            continue
+        seen.add(e.get_id())
+        if pred(e):
+            out.append(e)
+        stack.extend(e.children())
+    return out
+
+
+def _is_to_int(e):
+    return z3.is_app(e) and e.decl().kind() == z3.Z3_OP_TO_INT
+
+
 def congruent(r, x, n, tag="m"):
-    """r = x (mod n)."""
-    m = I("m!" + tag)
-    return z3.Exists([m], R(r) == R(x) - z3.ToReal(m) * R(n))
+    """r = x (mod n):  r = x - m*n for an integer m.  The existential is discharged by instantiation: the candidate
+    witnesses are the sums of the floor terms occurring in r (plus) and x (minus) - a disjunction of instances, which
+    implies the existential statement."""
+    r, x, n = R(r), R(x), R(n)
+    pos = _subterms(r, _is_to_int)[:3]
+    neg = [t for t in _subterms(x, _is_to_int) if all(not t.eq(p) for p in pos)][:2]
+    cands = [z3.IntVal(0)]
+    for t in pos:
+        cands = cands + [c + t for c in cands]
+    for t in neg:
+        cands = cands + [c - t for c in cands]
+    return z3.Or(*[r == x - z3.ToReal(m) * n for m in cands])
+
+
+def generalise(goal, pred):
+    """replace every maximal subterm satisfying `pred` by a fresh constant (valid for the fresh constant => valid for the term)."""
+    ts = _subterms(goal, pred)
+    ts.sort(key=lambda e: -len(e.sexpr()))
+    subs = []
+    for k, t in enumerate(ts):
+        subs.append((t, z3.Const(f"gen!{k}!{abs(hash(t.sexpr())) % 10**8}", t.sort())))
+    return z3.substitute(goal, *subs) if subs else goal
+
+
+def G(goal, only=None):
+    """goal with the parabolic offsets (quotients whose denominator mentions array samples [of the function named `only`])
+    generalised to fresh reals; simplification first, so that equal offsets written differently become the same term."""
+    if only is None:
+        return generalise(z3.simplify(goal), _has_uf_real_app)
+
+    def pred(e):
+        if not (z3.is_app(e) and e.decl().kind() == z3.Z3_OP_DIV):
+            return False
+        return bool(_subterms(e.arg(1), lambda x: z3.is_app(x) and x.num_args() > 0 and x.decl().name() == only))
+
+    return generalise(z3.simplify(goal), pred)
+
+
+def _has_uf_real_app(e):
+    """a real division whose denominator mentions array samples (uninterpreted applications): the parabolic offsets."""
+    if not (z3.is_app(e) and e.decl().kind() == z3.Z3_OP_DIV):
+        return False
+    return bool(_subterms(e.arg(1), lambda x: z3.is_app(x) and x.num_args() > 0 and x.decl().kind() == z3.Z3_OP_UNINTERPRETED))
 
 
 def curvature(v0, v1, v2):
@@ -298,8 +355,8 @@ def coarse_samples(g, Mx, Nx, axis):
     A = lambda i, j: R(g["fn"](i, j))
     x0, y0 = lift(g["x0"]), lift(g["y0"])
     if axis == 0:
-        return A(wrap_idx(x0 - 1, Mx), y0), A(x0, y0), A(wrap_idx(x0 + 1, Mx), y0)
-    return A(x0, wrap_idx(y0 - 1, Nx)), A(x0, y0), A(x0, wrap_idx(y0 + 1, Nx))
+        return tuple(A(wrap_idx(x0 + d, Mx), y0) for d in (-1, 0, 1))
+    return tuple(A(x0, wrap_idx(y0 + d, Nx)) for d in (-1, 0, 1))
 
 
 def align_setup(ctx):
@@ -488,14 +545,14 @@ def ccs_ensures(s):
         cv = curvature(v0, v1, v2)
         target = R(pk) + vertex(v0, v1, v2)
         r = shifts.fn(z3.IntVal(ax))
-        out.append((f"axis{ax}:in-centred-cell[-n/2,n/2)", in_cell(r, n)))
+        out.append((f"axis{ax}:in-centred-cell[-n/2,n/2)", generalise(in_cell(r, n), _has_uf_real_app)))
         if not calls:
-            out.append((f"axis{ax}:congruent-to-coarse-peak+parabolic-vertex(circular-neighbours)-mod-n", implies(cv != 0, congruent(r, target, n, f"c{ax}"))))
+            out.append((f"axis{ax}:congruent-to-coarse-peak+parabolic-vertex(circular-neighbours)-mod-n", G(implies(cv != 0, congruent(r, target, n, f"c{ax}")))))
         else:
             c = calls[0]
             g1 = log[1] if len(log) > 1 else None
             centre = R(c["shift"][ax])
-            out.append((f"axis{ax}:upsampling-window-centred-on-coarse-peak+vertex(mod-n)", implies(cv != 0, congruent(centre, target, n, f"w{ax}"))))
+            out.append((f"axis{ax}:upsampling-window-centred-on-coarse-peak+vertex(mod-n)", G(implies(cv != 0, congruent(centre, target, n, f"w{ax}")))))
             if g1 is not None and g1["arr"] is c["result"]:
                 P = lambda a, b, _g=g1: R(_g["fn"](a, b))
                 nrow, ncol = g1["shape"]
@@ -503,7 +560,7 @@ def ccs_ensures(s):
                 # callee contract: sample a of the window sits at centre + (a - centre_index)/up
                 pos = centre + (R(lp) - z3.ToReal(c["centre_index"])) / up
                 tv = local_vertex(P, g1["x0"], g1["y0"], nrow, ncol, ax)
-                out.append((f"axis{ax}:congruent-to-position-of-local-peak+vertex/up(mod-n)", congruent(r, pos + tv / up, n, f"u{ax}")))
+                out.append((f"axis{ax}:congruent-to-position-of-local-peak+vertex/up(mod-n)", G(congruent(r, pos + tv / up, n, f"u{ax}"), only=g["arr"].func.name())))
     if not calls:
         out.append(("no-upsampling-only-for-upsample<=1", lift(s.upsample_factor) <= 1))
     else:
@@ -539,7 +596,8 @@ def ccs_ensures(s):
             ph = R(ramp.ramp_phase(i, j))
             r0, r1 = R(shifts.fn(z3.IntVal(0))), R(shifts.fn(z3.IntVal(1)))
             want = -2 * PI * (z3.ToReal(cfreq(i, s.M)) * r0 / R(s.M) + z3.ToReal(cfreq(j, s.N)) * r1 / R(s.N))
-            out.append(("ramp-phase=-2pi*(k_row*shift_row/M+k_col*shift_col/N):translates-the-second-image-BY-the-returned-shift", implies(inr, ph == want)))
+            gen = z3.substitute(implies(inr, ph == want), (r0, Rl("gen!shift_row")), (r1, Rl("gen!shift_col")))
+            out.append(("ramp-phase=-2pi*(k_row*shift_row/M+k_col*shift_col/N):translates-the-second-image-BY-the-returned-shift", gen))
         out.append(("aligned-image-is-a-new-array", pybool(image is not s.im and image is not s.im_ref and getattr(image, "base", None) is not getattr(s.im, "base", s.im))))
     out.append(("frame:inputs-not-written", pybool(s.im_ref.writes == 0 and s.im.writes == 0)))
     return out
@@ -548,3 +606,404 @@ def ccs_ensures(s):
 C_CCS = Contract(f"{IU}:cross_correlation_shift", setup=ccs_setup, ensures=ccs_ensures)
 
 CONTRACTS = [C_DFTT, C_UPS, C_ALIGN, C_CCT, C_DFTN, C_CCS]
+
+# ------------------------------------------------------------------------------------------------
+# property-level lemmas (from the statements above alone)
+# ------------------------------------------------------------------------------------------------
+
+
+def lemma_parabola(ctx):
+    """the closed form used in the contracts IS the vertex of the interpolating parabola; it stays within half a pixel of a
+    maximal centre sample, is exact (0) for a symmetric peak, and is antisymmetric under reflection."""
+    v0, v1, v2, a, b, c, t = (Rl(n) for n in ("v0", "v1", "v2", "a", "b", "c", "t"))
+    interp = [a - b + c == v0, c == v1, a + b + c == v2]
+    t = vertex(v0, v1, v2)
+    return [
+        ("closed-form-is-the-stationary-point-of-the-interpolating-parabola", interp + [curvature(v0, v1, v2) != 0], 2 * a * t + b == 0),
+        ("maximal-centre-sample=>concave(maximum,not-minimum)", interp + [v1 >= v0, v1 >= v2, curvature(v0, v1, v2) != 0], a < 0),
+        ("maximal-centre-sample=>offset-within-half-a-pixel", [v1 >= v0, v1 >= v2, curvature(v0, v1, v2) != 0], AND(t >= -HALF, t <= HALF)),
+        ("symmetric-peak(integer-shift)=>offset-exactly-zero", [v0 == v2, curvature(v0, v1, v2) != 0], t == 0),
+        ("reflection(swapped-images)-negates-the-offset", [curvature(v0, v1, v2) != 0], vertex(v2, v1, v0) == -t),
+    ]
+
+
+def lemma_wrap(ctx):
+    """centred wrap w(x) = ((x + n/2) mod n) - n/2 (as computed by both implementations, real `mod` = x - n*floor(x/n))."""
+    x, y = Rl("x"), Rl("y")
+    n = I("n")
+    nr = z3.ToReal(n)
+    w = lambda u: (u + nr / 2) - nr * z3.ToReal(z3.ToInt((u + nr / 2) / nr)) - nr / 2
+    m = I("m")
+    return [
+        ("range", [n >= 1], AND(w(x) >= -nr / 2, w(x) < nr / 2)),
+        ("congruent", [n >= 1], congruent(w(x), x, nr)),
+        ("identity-inside-the-cell", [n >= 1, x >= -nr / 2, x < nr / 2], w(x) == x),
+        ("shifts-beyond-half-the-size-are-reported-modulo-n", [n >= 1, y == x + z3.ToReal(m) * nr], w(y) == w(x)),
+        ("swapping-negates(except-exactly-half-the-size)", [n >= 1, w(x) != -nr / 2], w(-x) == -w(x)),
+        ("zero-stays-zero", [n >= 1], w(z3.RealVal(0)) == 0),
+    ]
+
+
+def lemma_sign(ctx):
+    """A5 (shift theorem, trusted): g translated by s, g_s(x) = g(x - s), has spectrum G(k) * exp(-2 pi i k s / n).
+    With ref = im translated by s (translating the second image by s reproduces the first):
+      * phase of F_ref * conj(F_im) at k is -2 pi k s / n = the phase of the spectrum of a delta at +s: the correlation peak is at s;
+      * conj(F_ref) * F_im would give +2 pi k s / n (peak at -s): the order of the operands fixes the sign;
+      * multiplying F_im by exp(-2 pi i k r / n) with r = s gives exactly F_ref: the aligned image is the reference."""
+    phi, k, s_, n, r = Rl("phi_im"), Rl("k"), Rl("s"), Rl("n"), Rl("r")
+    ph_ref = phi - 2 * PI * k * s_ / n
+    delta_at = lambda p: -2 * PI * k * p / n
+    return [
+        ("phase(F_ref*conj(F_im))=phase-of-delta-at-+s", [n >= 1], ph_ref - phi == delta_at(s_)),
+        ("phase(conj(F_ref)*F_im)=phase-of-delta-at--s", [n >= 1], -ph_ref + phi == delta_at(-s_)),
+        ("ramp-with-returned-shift-maps-F_im-onto-F_ref", [n >= 1, r == s_], phi + delta_at(r) == ph_ref),
+        ("swapping-the-images-negates-the-correlation-phase", [n >= 1], (phi - ph_ref) == -(ph_ref - phi)),
+    ]
+
+
+def lemma_freq(ctx):
+    """index vectors of the matrix-multiply DFT: ifftshift(arange(n)) - n div 2 is the centred frequency for odd AND even n;
+    fftshift gives the same vector exactly for even n and a different one for every odd n >= 3."""
+    n, i = I("n"), I("i")
+    h = n / 2
+    ifs = z3.If(i + h >= n, i + h - n, i + h) - h
+    fs = z3.If(i - h < 0, i - h + n, i - h) - h
+    rng = [n >= 1, i >= 0, i < n]
+    return [
+        ("ifftshift(arange(n))-n//2=centred-frequency", rng, ifs == cfreq(i, n)),
+        ("fftshift-agrees-for-even-n", rng + [n % 2 == 0], fs == cfreq(i, n)),
+        ("fftshift-differs-for-odd-n>=3(at-index-0)", [n >= 3, n % 2 == 1, i == 0], fs != cfreq(i, n)),
+        ("centred-frequency-in[-n/2,n/2)", rng, AND(2 * cfreq(i, n) >= -n, 2 * cfreq(i, n) < n)),
+        ("centred-frequency-congruent-to-index", rng, OR(cfreq(i, n) == i, cfreq(i, n) == i - n)),
+    ]
+
+
+def lemma_window(ctx):
+    """the upsampled windows contain the point they are centred on and extend at least 0.75 pixel on either side (numpy: 1.5)."""
+    up = I("up")
+    u = z3.ToReal(up)
+    n = window_len(up)
+    gs = n / 2
+    return [
+        ("torch-window:centre-sample-in-range-and-reach>=0.5px-either-side", [up >= 3], AND(gs >= 0, gs < n, z3.ToReal(n - 1 - gs) / u >= HALF, z3.ToReal(gs) / u >= HALF)),
+        ("numpy-window:2*ceil(1.5up)+1-samples-centred-at-index-ceil(1.5up)", [up >= 1], AND((2 * n + 1) / 2 == n, z3.ToReal(n) / u >= z3.RealVal("3/2"))),
+    ]
+
+
+LEMMAS = [Lemma("parabola", lemma_parabola), Lemma("centred-wrap", lemma_wrap), Lemma("sign-convention", lemma_sign),
+          Lemma("frequency-index-vectors", lemma_freq), Lemma("upsampling-window", lemma_window)]
+
+# ------------------------------------------------------------------------------------------------
+# run-time oracles: the property statement evaluated on the REAL functions (replay + bounded stand-in, the DECIDING part)
+# ------------------------------------------------------------------------------------------------
+
+EXACT_TOL = 5e-4      # "exactly" up to float rounding of the estimator's own arithmetic (results are float32 in the torch path)
+PARABOLIC_TOL = 0.30  # accuracy of three-point parabolic refinement on the smooth band-limited test images (no upsampling)
+
+
+def _image(H, W, seed, kind="bandlimited"):
+    """real image with a unique auto-correlation peak; band-limited (Nyquist rows/columns removed) so that Fourier
+    translation by a sub-pixel shift is exact ground truth."""
+    import numpy as np
+
+    rng = np.random.default_rng(seed)
+    kx, ky = np.fft.fftfreq(H) * H, np.fft.fftfreq(W) * W
+    K = np.sqrt(kx[:, None] ** 2 + ky[None, :] ** 2)
+    F = (rng.normal(size=(H, W)) + 1j * rng.normal(size=(H, W))) * np.exp(-((K / (min(H, W) / 5.0)) ** 2))
+    if H % 2 == 0:
+        F[H // 2, :] = 0
+    if W % 2 == 0:
+        F[:, W // 2] = 0
+    im = np.real(np.fft.ifft2(F))
+    im = im / np.abs(im).max()
+    if kind == "offset":
+        im = im + 0.7
+    return im
+
+
+def _translate(im, s):
+    """im translated by s (periodic): exact roll for integer s, Fourier shift theorem otherwise."""
+    import numpy as np
+
+    if all(float(x).is_integer() for x in s):
+        return np.roll(im, (int(s[0]), int(s[1])), (0, 1))
+    H, W = im.shape
+    kx, ky = np.fft.fftfreq(H)[:, None], np.fft.fftfreq(W)[None, :]
+    return np.real(np.fft.ifft2(np.fft.fft2(im) * np.exp(-2j * np.pi * (kx * s[0] + ky * s[1]))))
+
+
+def _wrapd(d, n):
+    return (d + n / 2.0) % n - n / 2.0
+
+
+def _tol(impl, up, kind):
+    if kind in ("identical", "integer"):
+        return EXACT_TOL
+    if impl == "numpy":
+        return PARABOLIC_TOL if up <= 1 else 1.0 / up
+    return 0.5 if up <= 2 else 1.0 / up   # torch: half-pixel estimate for upsample <= 2
+
+
+def _estimate(inp, ref, img):
+    """call the real estimator as configured; returns (shift, aligned-or-None, input arrays, their snapshots)."""
+    import numpy as np
+    import torch
+    from quantem.core.utils import imaging_utils as iu
+
+    impl, up = inp["impl"], inp["up"]
+    H, W = ref.shape
+    if impl == "numpy":
+        fin = bool(inp.get("fft_input"))
+        a, b = (np.fft.fft2(ref), np.fft.fft2(img)) if fin else (ref.copy(), img.copy())
+        snap = (a.copy(), b.copy())
+        kw = dict(upsample_factor=up, fft_input=fin, return_shifted_image=bool(inp.get("ret_img")), fft_output=bool(inp.get("fft_output")))
+        ms = inp.get("max_shift", "none")
+        if ms != "none":
+            kw["max_shift"] = ms
+        out = iu.cross_correlation_shift(a, b, **kw)
+        out2 = iu.cross_correlation_shift(a, b, **kw)
+        sh, al = (out if kw["return_shifted_image"] else (out, None))
+        sh2 = out2[0] if kw["return_shifted_image"] else out2
+        if al is not None and kw["fft_output"]:
+            al = np.real(np.fft.ifft2(al))
+        same = np.array_equal(a, snap[0]) and np.array_equal(b, snap[1])
+        return np.asarray(sh, float), al, same, np.allclose(sh, sh2, atol=0, rtol=0)
+    dt = torch.float32 if inp.get("dtype") == "float32" else torch.float64
+    a, b = torch.tensor(ref, dtype=dt), torch.tensor(img, dtype=dt)
+    if impl == "torch_fourier":
+        a, b = torch.fft.fft2(a), torch.fft.fft2(b)
+        f = lambda: iu.align_images_fourier_torch(a, b, up)
+    else:
+        f = lambda: iu.cross_correlation_shift_torch(a, b, upsample_factor=up)
+    snap = (a.clone(), b.clone())
+    sh, sh2 = f(), f()
+    same = torch.equal(a, snap[0]) and torch.equal(b, snap[1])
+    sh = np.asarray(sh.detach().cpu().numpy(), float)
+    return sh, None, same, bool(np.array_equal(sh, np.asarray(sh2.detach().cpu().numpy(), float)))
+
+
+def rt_clauses(inp):
+    """list of (clause, message) violated by the real estimator on this input."""
+    import numpy as np
+
+    H, W, up, impl, kind = inp["H"], inp["W"], inp["up"], inp["impl"], inp["kind"]
+    s = tuple(inp["shift"])
+    ref = _image(H, W, inp.get("seed", 0), inp.get("content", "bandlimited"))
+    img = ref.copy() if kind == "identical" else _translate(ref, (-s[0], -s[1]))   # translating img by s reproduces ref
+    bad = []
+    sh, al, same, det = _estimate(inp, ref, img)
+    if not same:
+        bad.append(("inputs-not-mutated", "the caller's arrays differ after the call(s)"))
+    if not det:
+        bad.append(("deterministic", "two calls on the same arrays return different shifts"))
+    if not np.all(np.isfinite(sh)):
+        bad.append(("finite", f"returned {sh}"))
+        return bad
+    tol = _tol(impl, up, kind)
+    err = [abs(_wrapd(sh[i] - s[i], (H, W)[i])) for i in range(2)]
+    if max(err) > tol:
+        name = {"identical": "identical-images-give-zero-shift", "integer": "integer-shift-exact", "subpixel": "subpixel-shift-within-one-upsampled-pixel"}[kind]
+        bad.append((name, f"returned {np.round(sh, 4).tolist()} for applied shift {list(s)} (error {max(err):.4g} > {tol:.4g})"))
+    if impl != "torch_fourier" and any(not (-n / 2.0 - 1e-9 <= v < n / 2.0 + 1e-9) for v, n in zip(sh, (H, W))):
+        bad.append(("in-centred-cell", f"returned {sh.tolist()} outside [-n/2, n/2) for shape {(H, W)}"))
+    # swapping negates (modulo the cell)
+    sw, _, same2, _ = _estimate(inp, img, ref)
+    anti = [abs(_wrapd(sh[i] + sw[i], (H, W)[i])) for i in range(2)]
+    if max(anti) > (EXACT_TOL if kind != "subpixel" else 2 * tol):
+        bad.append(("swapping-negates", f"shift(a,b)={np.round(sh, 4).tolist()} but shift(b,a)={np.round(sw, 4).tolist()}"))
+    if al is not None:
+        want = _translate(img, tuple(sh)) if not all(float(x).is_integer() for x in sh) else np.roll(img, (int(sh[0]), int(sh[1])), (0, 1))
+        scale = np.abs(ref).max()
+        if np.abs(al - want).max() > 1e-8 * scale:
+            bad.append(("aligned-image=second-image-translated-by-the-returned-shift", f"max deviation {np.abs(al - want).max():.3g}"))
+        if kind in ("identical", "integer") and np.abs(al - ref).max() > 1e-6 * scale:
+            bad.append(("aligned-image-matches-reference", f"max |aligned - reference| = {np.abs(al - ref).max():.3g} for an integer shift"))
+    if impl == "numpy" and (inp.get("fft_input") or inp.get("max_shift", "none") != "none"):
+        base = dict(inp, fft_input=False, max_shift="none", ret_img=False, fft_output=False)
+        sh0 = _estimate(base, ref, img)[0]
+        if np.abs(sh0 - sh).max() > 1e-7:
+            bad.append(("fourier-input/max_shift-does-not-change-the-estimate", f"{np.round(sh, 5).tolist()} vs plain call {np.round(sh0, 5).tolist()}"))
+    return bad
+
+
+def rt_shift(inp):
+    bad = rt_clauses(inp)
+    return dict(violated=bool(bad), observed="; ".join(f"{c}: {m}" for c, m in bad[:3]) or "ok", clauses=[c for c, _ in bad],
+                expected="returned shift = applied translation (exact / within 1/upsample / parabolic accuracy), zero for identical images, "
+                         "negated when swapped, aligned image = second image translated by the shift, inputs untouched")
+
+
+SHAPES_Q = [(8, 8), (9, 9), (8, 13), (12, 9), (16, 16), (17, 16), (15, 20), (24, 24), (25, 18), (33, 17), (32, 33)]
+UPS = (1, 2, 4, 8, 16, 64)
+
+
+def _shifts(H, W, rng):
+    ints = [(1, -2), (-(H // 2), W // 2), (H - 1, -(W - 1)), (int(rng.integers(-H, H)), int(rng.integers(-W, W)))]
+    subs = [(0.5, -0.25), (round(float(rng.uniform(-H, H)), 3), round(float(rng.uniform(-W, W)), 3)), (H / 2 + 0.37, -W / 2 - 0.21), (-1.3, 2.45)]
+    return ints, subs
+
+
+def fam_shift(tier="quick", seed=0, impls=("numpy", "torch", "torch_fourier"), ups=UPS):
+    import numpy as np
+
+    shapes = SHAPES_Q if tier == "quick" else SHAPES_Q + [(10, 10), (11, 14), (21, 21), (28, 19), (31, 32), (20, 33)]
+    nseed = 1 if tier == "quick" else 3
+    for (H, W) in shapes:
+        for sd in range(nseed):
+            rng = np.random.default_rng(1000 * H + W + 7 * sd + seed)
+            ints, subs = _shifts(H, W, rng)
+            cases = [("identical", (0, 0))] + [("integer", s) for s in ints] + [("subpixel", s) for s in subs]
+            for up in ups:
+                for kind, s in cases:
+                    base = dict(H=H, W=W, up=up, kind=kind, shift=list(s), seed=seed + sd + H, content="bandlimited" if (H + sd) % 2 else "offset")
+                    if "numpy" in impls:
+                        yield dict(base, impl="numpy")
+                        if kind != "subpixel" or up in (1, 8):
+                            far = float(np.hypot(_wrapd(s[0], H), _wrapd(s[1], W)))
+                            yield dict(base, impl="numpy", fft_input=True, ret_img=True, fft_output=True)
+                            yield dict(base, impl="numpy", ret_img=True, max_shift=round(far + 1.6, 3))
+                            yield dict(base, impl="numpy", fft_input=True, ret_img=True, max_shift=float(H + W))
+                    if "torch" in impls:
+                        yield dict(base, impl="torch", dtype="float64")
+                        if up in (1, 4, 64):
+                            yield dict(base, impl="torch", dtype="float32")
+                    if "torch_fourier" in impls and up in (2, 8):
+                        yield dict(base, impl="torch_fourier", dtype="float64")
+
+
+def klass_shift(inp, clause):
+    return f"{inp['impl']}:{'upsample>1' if inp['up'] > 1 else 'upsample<=1'}:{clause}"
+
+
+def bounded_shift(name, family, bound):
+    def run(tier, seed):
+        import json
+
+        n, fails, distinct = 0, [], set()
+        for inp in family(tier, seed):
+            n += 1
+            distinct.add(json.dumps(inp, sort_keys=True, default=str))
+            for clause, msg in rt_clauses(inp):
+                fails.append(dict(case=inp, klass=klass_shift(inp, clause), observed=msg, expected=clause))
+        return dict(evaluations=n, distinct=len(distinct), failures=fails)
+
+    b = Bounded(name, run, bound)
+    b.rt = rt_shift
+    return b
+
+
+def rt_dft(inp):
+    """dft_upsample / dftUpsample_torch against the direct trigonometric sum  Re sum_kl F[k,l] exp(-2 pi i (cf(k) X_a/M + cf(l) Y_b/N))."""
+    import numpy as np
+    import torch
+    from quantem.core.utils import imaging_utils as iu
+
+    M, N, up = inp["M"], inp["N"], inp["up"]
+    sx, sy = inp["shift"]
+    rng = np.random.default_rng(inp.get("seed", 0))
+    F = rng.normal(size=(M, N)) + 1j * rng.normal(size=(M, N))
+    F0 = F.copy()
+    kx, ky = np.fft.fftfreq(M) * M, np.fft.fftfreq(N) * N
+    if inp["impl"] == "numpy":
+        got = np.asarray(iu.dft_upsample(F, up, (sx, sy)))
+        du = int(math.ceil(1.5 * up))
+        X = sx + (np.arange(2 * du + 1) - du) / up
+        Y = sy + (np.arange(2 * du + 1) - du) / up
+    else:
+        Ft = torch.tensor(F)
+        got = iu.dftUpsample_torch(Ft, up, torch.tensor([sx, sy], dtype=torch.float64)).numpy()
+        F = Ft.numpy()
+        n = int(math.ceil(1.5 * up))
+        X, Y = (np.arange(n) - sx) / up, (np.arange(n) - sy) / up
+    want = np.real(np.exp(-2j * np.pi * np.outer(X, kx) / M) @ F0 @ np.exp(-2j * np.pi * np.outer(ky, Y) / N))
+    problems = []
+    if got.shape != want.shape:
+        problems.append(f"shape {got.shape} != {want.shape}")
+    elif np.abs(got - want).max() > 1e-4 * max(1.0, np.abs(want).max()):
+        a, b = np.unravel_index(np.argmax(np.abs(got - want)), got.shape)
+        problems.append(f"sample [{a},{b}] = {got[a, b]:.5g}, trigonometric sum at ({X[a]:.4g},{Y[b]:.4g}) = {want[a, b]:.5g}")
+    if not np.array_equal(F, F0):
+        problems.append("input spectrum was modified")
+    return dict(violated=bool(problems), observed="; ".join(problems) or "ok",
+                expected="window sample (a,b) = Re of the forward DFT kernel evaluated at the sample position (centred frequencies)")
+
+
+def fam_dft(tier="quick", seed=0, impls=("numpy", "torch")):
+    for impl in impls:
+        for (M, N) in [(4, 4), (5, 5), (6, 9), (9, 6), (8, 13), (16, 11)]:
+            for up in ((2, 3, 4, 8) if impl == "numpy" else (3, 4, 8, 16)):
+                for sh in ((0.0, 0.0), (1.5, -2.0), (3.25, 0.5)):
+                    yield dict(impl=impl, M=M, N=N, up=up, shift=list(sh), seed=seed + M)
+
+
+def klass_dft(inp, res):
+    return f"{inp['impl']}:window-samples"
+
+
+# ---- concretisation of solver counter-models
+
+
+def conc_dft(impl):
+    def conc(ev):
+        M, N, up = ev("M"), ev("N"), ev("up")
+        if None in (M, N, up) or not (1 <= M <= 64 and 1 <= N <= 64 and 1 <= up <= 64):
+            M, N, up = min(max(M or 5, 2), 12), min(max(N or 5, 2), 12), min(max(up or 3, 3 if impl == "torch" else 2), 16)
+        sx = ev("shift_row", None) if impl == "numpy" else 1.0
+        sy = ev("shift_col", None) if impl == "numpy" else 2.0
+        clip = lambda v: float(max(-8.0, min(8.0, v if v is not None else 1.25)))
+        return dict(impl=impl, M=M, N=N, up=up, shift=[clip(sx), clip(sy)], seed=1)
+    return conc
+
+
+def conc_shift(impl):
+    def conc(ev):
+        M, N, up = ev("M"), ev("N"), ev("up")
+        H = M if M is not None and 6 <= M <= 40 else 9
+        W = N if N is not None and 6 <= N <= 40 else 12
+        up = up if up is not None and 1 <= up <= 64 else 4
+        inp = dict(impl=impl, H=H, W=W, up=up, kind="subpixel", shift=[1.3, -2.45], seed=3)
+        if impl == "numpy":
+            inp.update(fft_input=bool(ev("fft_input", False)), ret_img=bool(ev("return_shifted_image", False)), fft_output=bool(ev("fft_output", False)))
+            if not ev("max_shift_is_none", True):
+                inp["max_shift"] = float(H + W)
+        else:
+            inp["dtype"] = "float64"
+        return inp
+    return conc
+
+
+def _fam_contract(impls, ups):
+    return lambda: fam_shift("quick", 0, impls=impls, ups=ups)
+
+
+for _c, _impl in ((C_DFTT, "torch"), (C_DFTN, "numpy")):
+    _c.concretize, _c.rt = conc_dft(_impl), rt_dft
+    _c.rt_family = (lambda i: (lambda: fam_dft("quick", 0, impls=(i,))))(_impl)
+for _c, _impl, _ups in ((C_UPS, "torch", (4, 8)), (C_ALIGN, "torch_fourier", (2, 8)), (C_CCT, "torch", (1, 2, 4)), (C_CCS, "numpy", (1,))):
+    _c.concretize, _c.rt, _c.rt_family = conc_shift(_impl), rt_shift, _fam_contract((_impl,), _ups)
+
+BOUNDED = [
+    bounded_shift("shift recovery contract on real estimators (numpy + torch)", fam_shift,
+                  "shapes 8..33 odd/even/non-square (11 quick, 17 thorough), upsample {1,2,4,8,16,64}, identical / 4 integer / 4 sub-pixel shifts "
+                  "incl. beyond half the size, real and Fourier inputs, fft_output, max_shift, float32/float64; inputs snapshotted and compared, two calls"),
+    Bounded.from_rt("matrix-multiply DFT window vs direct trigonometric sum", rt_dft, fam_dft, "6 shapes, 4 factors, 3 centres, numpy + torch", klass=klass_dft),
+]
+
+TRUSTED = [
+    "A5 DFT facts (NOT proved): shift theorem; Re ifft2(F_ref*conj(F_im)) is the circular cross-correlation; forward kernel on conj(cc) = conj of inverse kernel on cc",
+    "pyvc/lib/c13_models.py: complex arrays as structural terms (conj involution / distributes over products, conj(exp(ip)) = exp(-ip), `x*y` allocates, `x*=y` writes x), "
+    "fftfreq / fftshift / ifftshift / arange / outer index maps, argmax returns an in-range flat index (division with remainder exact), torch.round = nearest integer (ties unspecified), floor/ceil exact",
+    "argmax maximality and uniqueness of the correlation peak are hypotheses of the property lemmas, not available to (nor needed by) the function-level obligations",
+    "witness instantiation for congruences (sums of the floor terms occurring in the result) and generalisation of sample quotients to fresh reals: both only strengthen the proved goal",
+    "pyvc engine (AST interpreter, slicing / broadcasting semantics), z3, cvc5",
+]
+ASSUMPTIONS = [
+    "A1 floats are reals (rounding inside FFT / exp / argmax ties ignored in the deductive part; tolerances only in the bounded part)",
+    "A5 DFT axioms trusted; the FFT implementations and the quality of peak search (that the argmax of the correlation IS the applied shift) are outside deductive reach",
+    "the statement `returns the applied shift` is decided only by the bounded run-time contract (finite families), never counted as proved",
+    "device='gpu' (cupy) branches are not explored",
+    "callers in imaging/drift.py, tomography/utils.py, direct_ptycho_utils.py are not under contract; they rely on the frame + sign clauses proved here",
+]
+EXPLANATION = ("VCs generated from the real source of dft_upsample, cross_correlation_shift, cross_correlation_shift_torch, align_images_fourier_torch, "
+               "upsampled_correlation_torch, dftUpsample_torch (centred wrap, parabolic vertex, DFT index vectors and kernel phases, conjugation/sign convention, "
+               "local-peak-to-shift conversion, phase ramp of the aligned image, frames), property lemmas, and the run-time shift-recovery contract as bounded stand-in")
